@@ -194,12 +194,14 @@ def check_pipeline(ctx, case):
         try:
             if len(mem) != len(npz) or len(mem) != len(chunk_dicts):
                 ctx.violation("sample-count", f"{model}: in-memory {len(mem)}, npz {len(npz)}, chunk functions {len(chunk_dicts)} samples", small)
-            for idx in range(min(len(mem), len(npz), len(chunk_dicts))):
-                a, b = mem[idx], npz[idx]
-                c = stream[idx]
-                ctx.count("samples_compared")
-                compare(ctx, small, "torch_dataset", "torch_dataset_np_chunks", a, b, idx, {image_key})
-                compare(ctx, small, "torch_dataset", "chunks+streaming", a, c, idx, {image_key})
+            for epoch in (0, 1):  # every index is read twice: the frameworks must agree on every epoch, not just on first reads
+                tag = "torch_dataset" if epoch == 0 else "torch_dataset (second epoch)"
+                for idx in range(min(len(mem), len(npz), len(chunk_dicts))):
+                    a, b = mem[idx], npz[idx]
+                    c = stream[idx]
+                    ctx.count("samples_compared")
+                    compare(ctx, small, tag, "torch_dataset_np_chunks", a, b, idx, {image_key})
+                    compare(ctx, small, tag, "chunks+streaming", a, c, idx, {image_key})
         finally:
             ld.StreamingDataset.__getitem__ = orig_get
         if case.get("litdata"):
